@@ -35,3 +35,39 @@ Print Assumptions c01_add_text_total.
 Theorem c01_inv_initially : forall W pad ovf, 1 <= W -> Inv (wb_new W pad ovf).
 Proof. exact WrapInv.wb_new_Inv. Qed.
 Print Assumptions c01_inv_initially.
+
+(* ---------- render layer, DOM layer and public routes (Proofs/RenderTotal.v) ----------
+   okish r := r is Ok or TooNarrow.  Side conditions are decidable booleans; see DESIGN.md 11.4
+   for why each is needed (counterexamples cex_* in RenderTotal.v). *)
+From H2T Require Import Sub Css Dom Render Api Proofs.WrapInv Proofs.RenderWidth Proofs.RenderTotal.
+From H2T Require CssParse.
+Theorem c01_render_tree_total :
+  forall (d : deco) (min_wrap : N) (o : ropts) (width : N) (tree : rnode),
+       width < usize_max ->
+       tree_wf d min_wrap tree = true ->
+       match render_tree d min_wrap o width tree with
+       | Ok s => okish (sub_into_lines s) /\ okish (sub_into_string s)
+       | TooNarrow => True
+       | _ => False
+       end.
+Proof. exact RenderTotal.c01_render_tree_total. Qed.
+Print Assumptions c01_render_tree_total.
+
+Theorem c01_routes_total_css :
+  forall (c : config) (doc : list node) (w : N),
+       w < usize_max ->
+       dom_ok doc = true ->
+       est_side CssParse.inline_styles CssParse.doc_rules c doc = true ->
+       okish (lines_from_read CssParse.inline_styles CssParse.doc_rules c doc w) /\
+       okish (string_from_read CssParse.inline_styles CssParse.doc_rules c doc w).
+Proof. exact RenderTotal.c01_routes_total_css. Qed.
+Print Assumptions c01_routes_total_css.
+
+Theorem c01_to_render_tree_total_css :
+  forall (c : config) (doc : list node),
+       dom_ok doc = true ->
+       okp (fun tree : rnode => wfs tree = true)
+         (to_render_tree CssParse.inline_styles CssParse.doc_rules c doc).
+Proof. exact RenderTotal.c01_to_render_tree_total_css. Qed.
+Print Assumptions c01_to_render_tree_total_css.
+
